@@ -42,6 +42,7 @@ type Template struct {
 	text string // text parsed to create the template (or its parent)
 
 	// Parsing only; cleared after parse.
+	parents   []string // templates whose extends/import clauses led to this one, ending with itself
 	lex       *lexer
 	token     [3]item // three-token lookahead for parser.
 	peekCount int
@@ -213,13 +214,14 @@ func (t *Template) recover(errp *error) {
 	return
 }
 
-func (s *Set) parse(name, text string, cacheAfterParsing bool) (t *Template, err error) {
+func (s *Set) parse(name, text string, cacheAfterParsing bool, parents ...string) (t *Template, err error) {
 	t = &Template{
 		Name:         name,
 		ParseName:    name,
 		text:         text,
 		set:          s,
 		passedBlocks: make(map[string]*BlockNode),
+		parents:      append(parents[:len(parents):len(parents)], name),
 	}
 	defer t.recover(&err)
 
@@ -278,12 +280,12 @@ func (t *Template) parseTemplate(cacheAfterParsing bool) (next Node) {
 						t.errorf("Unexpected extends clause: the 'extends' clause should come before all import clauses")
 					}
 					var err error
-					t.extends, err = t.set.getSiblingTemplate(s, t.Name, cacheAfterParsing)
+					t.extends, err = t.set.getSiblingTemplate(s, t.Name, cacheAfterParsing, t.parents...)
 					if err != nil {
 						t.error(err)
 					}
 				} else {
-					tt, err := t.set.getSiblingTemplate(s, t.Name, cacheAfterParsing)
+					tt, err := t.set.getSiblingTemplate(s, t.Name, cacheAfterParsing, t.parents...)
 					if err != nil {
 						t.error(err)
 					}
@@ -327,6 +329,7 @@ func (t *Template) startParse(lex *lexer) {
 // stopParse terminates parsing.
 func (t *Template) stopParse() {
 	t.lex = nil
+	t.parents = nil
 }
 
 // IsEmptyTree reports whether this tree (node) is empty of everything but space.
